@@ -209,6 +209,10 @@ JudgeTimeVar(e) ==
 JudgeWeighted(e) ==
     V(Combine({EqLL(e.pts[i].a, e.pts[i].yb) : i \in 1..Len(e.pts)}), None, Pairs(e.frame), None, None)
 
+\* -- create_joint_distribution on the epsilons: the model function is the same function of the epsilons: pts [yb, a]
+JudgeJoinEps(e) ==
+    V(Combine({EqLL(e.pts[i].a, e.pts[i].yb) : i \in 1..Len(e.pts)}), None, Pairs(e.frame), None, None)
+
 \* -- absorption / transit setters: obs = [ka, dur, mat, mdt, rates, n], absent observables are UNDEF
 AbsRel(kind, o) ==
     CASE kind = "FO"  -> {Eq(o.ka, RelKA(o.mat))}
